@@ -348,7 +348,7 @@ pub fn shard_run(tier: &str, seed: u64, replay_case: Option<usize>, shard: Shard
     // ---- end-to-end cross-check: the real executable under a write workload, killed with kill -9
     // at random instants; after restart every acknowledged request must be present
     if replay_case.is_none() {
-        let cycles = if thorough { 200 } else { 12 };
+        let cycles = if thorough { 240 } else { 18 };
         if let Some(f) = kill_loop(seed, cycles, shard, &mut cov, &mut out.errors) {
             out.found.push(f);
         }
@@ -530,10 +530,21 @@ fn kill_loop(seed: u64, cycles: usize, shard: Shard, cov: &mut Cov, errors: &mut
     let mut acked: Vec<(Uuid, Uuid, Vec<u8>)> = vec![];
     let mut snap: Option<(Uuid, Vec<u8>)> = None;
     let mut rng = Rng::new(seed).fork(0x4B12 + shard.k as u64);
-    for cyc in mine {
+    // odd workers run the server with an allow-list that names the client
+    let allow = shard.k % 2 == 1;
+    // another process' connection to the database (a backup job, an operator's shell): while it is
+    // open the write-ahead log is not folded into the database when the server's connections close;
+    // it stays open across the kill and the restart that follows
+    let mut bystander: Option<rusqlite::Connection> = None;
+    for (ci, cyc) in mine.into_iter().enumerate() {
         let port = free_port()?;
         let addr = format!("127.0.0.1:{port}");
-        let mut proc = match Proc::start(&bin, &["--listen".into(), addr.clone(), "--data-dir".into(), dir.path().to_string_lossy().to_string()], &[], &[addr.clone()], Duration::from_secs(20)) {
+        let mut args: Vec<String> = vec!["--listen".into(), addr.clone(), "--data-dir".into(), dir.path().to_string_lossy().to_string()];
+        if allow {
+            args.push("--allow-client-id".into());
+            args.push(client.to_string());
+        }
+        let mut proc = match Proc::start(&bin, &args, &[], &[addr.clone()], Duration::from_secs(20)) {
             Ok(p) => p,
             Err(e) => {
                 errors.push(format!("kill loop: {e}"));
@@ -582,6 +593,18 @@ fn kill_loop(seed: u64, cycles: usize, shard: Shard, cov: &mut Cov, errors: &mut
         }
         cov.count("kill9_cycles", 1);
         cov.count("kill9_acknowledged_versions_verified", walked as u64);
+        cov.hit(format!("kill9:allow-list={allow}:bystander-connection={}", bystander.is_some()));
+        // the bystander of the previous cycle has seen the restart; every other cycle gets a new one
+        bystander = None;
+        if ci % 2 == 1 {
+            if let Ok(c) = rusqlite::Connection::open(crate::subject::db_file(dir.path())) {
+                let _: Result<i64, _> = c.query_row("SELECT count(*) FROM clients", [], |r| r.get(0));
+                bystander = Some(c);
+            }
+        }
+        // every fourth cycle: one large snapshot upload, killed the moment it is acknowledged
+        let big_then_kill = ci % 4 == 2;
+        let kill_now = Arc::new(AtomicBool::new(false));
         // workload in a thread; kill at a random instant
         let stop = Arc::new(AtomicBool::new(false));
         let done: Arc<Mutex<Vec<(Uuid, Uuid, Vec<u8>)>>> = Arc::new(Mutex::new(vec![]));
@@ -589,10 +612,28 @@ fn kill_loop(seed: u64, cycles: usize, shard: Shard, cov: &mut Cov, errors: &mut
         let start_parent = acked.last().map(|a| a.0).unwrap_or(Uuid::nil());
         let (a2, s2, d2, sn2) = (addr.clone(), stop.clone(), done.clone(), snapd.clone());
         let wseed = rng.next_u64();
+        let kn2 = kill_now.clone();
         let th = std::thread::spawn(move || {
             let mut r = Rng::new(wseed);
             let mut parent = start_parent;
             let mut i = 0;
+            if big_then_kill {
+                let data: Vec<u8> = (0..100).map(|_| r.next_u64() as u8).collect();
+                let req = Req::AddVersion { parent, data: data.clone() };
+                let resp = socket_request(&a2, &Subject::build_http(client, &req), Framing::ContentLength, Duration::from_secs(10));
+                if let Resp::AddOk { vid, .. } = Subject::decode_http(&req, &resp) {
+                    d2.lock().unwrap().push((vid, parent, data));
+                    let n = (9usize << 20) + r.usize(3 << 20);
+                    let sd = crate::ops::PaySpec::new(n, 0, wseed).bytes();
+                    let sreq = Req::AddSnapshot { vid, data: sd.clone() };
+                    let sr = socket_request(&a2, &Subject::build_http(client, &sreq), Framing::ContentLength, Duration::from_secs(30));
+                    if sr.status == 200 {
+                        *sn2.lock().unwrap() = Some((vid, sd));
+                    }
+                }
+                kn2.store(true, Ordering::SeqCst);
+                return;
+            }
             while !s2.load(Ordering::SeqCst) && i < 400 {
                 i += 1;
                 let len = *r.pick(&[20usize, 3000, 4100, 30_000, 200_000]);
@@ -616,7 +657,15 @@ fn kill_loop(seed: u64, cycles: usize, shard: Shard, cov: &mut Cov, errors: &mut
                 }
             }
         });
-        std::thread::sleep(Duration::from_micros(rng.range(500, 60_000)));
+        if big_then_kill {
+            let t0 = std::time::Instant::now();
+            while !kill_now.load(Ordering::SeqCst) && t0.elapsed() < Duration::from_secs(40) {
+                std::thread::sleep(Duration::from_micros(200));
+            }
+            cov.hit("kill9:right-after-a-large-snapshot-was-acknowledged".into());
+        } else {
+            std::thread::sleep(Duration::from_micros(rng.range(500, 60_000)));
+        }
         proc.kill9();
         stop.store(true, Ordering::SeqCst);
         let _ = th.join();
